@@ -713,6 +713,17 @@ fn oracles_on_input<T: Reg>(cx: &mut Cx, name: &str, inp: &[u8], r: &DRes<T>) {
 				},
 				_ => cx.oracle.check(false, "decode_all-panic", rp),
 			}
+			// the shared-buffer entry point recovers the same value from the same bytes (a value
+			// after a byte buffer must be found where the buffer ended)
+			{
+				let fb = from_bytes::<T>(inp);
+				let same = match (r, &fb) {
+					(DRes::Ok(v, _), DRes::Ok(w, _)) => v.same(w),
+					(DRes::Err, DRes::Err) => true,
+					_ => false,
+				};
+				cx.oracle.check(same, "decode_from_bytes-disagrees", rp);
+			}
 			// every strict prefix of a valid encoding fails
 			if let DRes::Ok(_, c) = r {
 				let cuts: Vec<usize> = if *c <= 40 { (0..*c).collect() } else { vec![0, 1, c / 2, c - 2, c - 1] };
@@ -830,6 +841,21 @@ fn oracle_c11<T: Reg>(cx: &mut Cx, name: &str, desc: &str, inp: &[u8], fam: &str
 	for l in 0..=maxl {
 		let known = cx.rng.chance(1, 2);
 		let rr = push_run::<T>(cx, name, desc, inp, known, &[Layer::Depth(l)], fam);
+		{
+			// the entry point over the crate's own slice input: same verdict
+			use parity_scale_codec::DecodeLimit;
+			let d = catch_unwind(AssertUnwindSafe(|| {
+				let mut s = inp;
+				T::decode_with_depth_limit(l, &mut s).ok().map(|_| inp.len() - s.len())
+			}));
+			let same = match (&d, &rr) {
+				(Ok(Some(c)), RRes::Ok(_, c2, _)) => c == c2,
+				(Ok(None), RRes::Err(_)) => true,
+				(Err(_), RRes::Panic) => true,
+				_ => false,
+			};
+			cx.oracle.check(same, "depth-limit-entry-point-disagrees", || format!("{}\tL={l}", rp()));
+		}
 		match (&base, &rr) {
 			(DRes::Ok(w, c), RRes::Ok(x, d, _)) => {
 				cx.oracle.check(w.same(x) && c == d, "depth-limit-not-transparent", || format!("{}\tL={l}", rp()));
@@ -875,6 +901,39 @@ fn oracle_c12<T: Reg>(cx: &mut Cx, name: &str, desc: &str, inp: &[u8], fam: &str
 		cx.oracle.check(u as u128 >= p, "tracked-usage-below-payload", || format!("{}\tU={u}\tpayload={p}", rp()));
 		if p == 0 && w.depth() == 0 {
 			cx.oracle.check(u == 0, "usage-nonzero-without-heap", || format!("{}\tU={u}", rp()));
+		}
+	}
+	// the crate's own entry points over its own slice input (the tracker is then the outermost
+	// input, as in real use) against the dynamic stack over a known-length input: same usage, same
+	// verdict per limit
+	{
+		use parity_scale_codec::{DecodeWithMemLimit, MemTrackingInput};
+		let rk: RRes<T> = dec_stack::<T>(inp, true, &[Layer::Mem(usize::MAX)]);
+		let uk = match &rk {
+			RRes::Ok(_, _, st) | RRes::Err(st) => st[0],
+			RRes::Panic => u64::MAX,
+		};
+		let direct_u = catch_unwind(AssertUnwindSafe(|| {
+			let mut s = inp;
+			let mut m = MemTrackingInput::new(&mut s, usize::MAX);
+			let ok = T::decode(&mut m).is_ok();
+			(ok, m.used_mem() as u64)
+		}));
+		if let (Ok((ok, du)), true) = (&direct_u, uk != u64::MAX) {
+			cx.oracle.check(*du == uk && *ok == matches!(rk, RRes::Ok(..)), "tracked-usage-depends-on-input-stack", || format!("{}\tU(direct)={du}\tU(stack)={uk}", rp()));
+		}
+		if uk != u64::MAX {
+			for l in [0u64, 1, uk / 2, uk.saturating_sub(1), uk, uk + 1] {
+				let d = catch_unwind(AssertUnwindSafe(|| {
+					let mut s = inp;
+					T::decode_with_mem_limit(&mut s, l as usize).is_ok()
+				}));
+				let st: RRes<T> = dec_stack::<T>(inp, true, &[Layer::Mem(l as usize)]);
+				cx.oracle.check(d.is_ok(), "mem-limit-panic", || format!("{}\tL={l}", rp()));
+				if let Ok(okd) = d {
+					cx.oracle.check(okd == matches!(st, RRes::Ok(..)), "mem-limit-entry-point-disagrees", || format!("{}\tL={l}\tU={uk}\tdecode_with_mem_limit ok={okd}", rp()));
+				}
+			}
 		}
 	}
 	let limits: Vec<u64> = if u <= 24 || (cx.thorough && u <= 4096) {
